@@ -1,8 +1,13 @@
 ----------------------------- MODULE Trace_X02 -----------------------------
 (* Trace validation of SetAdaptationFieldControl against TsPacket!ExpectSetAfc (spec growth; not in MANIFEST.json) *)
-EXTENDS TraceBase, TsPacket
+EXTENDS TraceBase, Create
+CreateKinds == {"pay", "af", "priv", "pusi", "cont", "disc", "pes"}
 Verdict(e) ==
   IF e.panic # "" THEN "panic"
+  ELSE IF e.op = "createseq" THEN
+       IF e.pid \notin 0..8191 \/ \E i \in 1..Len(e.opts) : e.opts[i].k \notin CreateKinds \/ ~IsPtsValue(e.opts[i].pts) THEN "harness-bad-input"
+       ELSE IF e.after # ExpectCreate(e.pid, e.opts) THEN "create-bytes"
+       ELSE ""
   ELSE IF ~WFLoose(e.before) THEN "harness-not-wellformed"
   ELSE LET x == ExpectSetAfc(e.before, e.v) IN
   IF x.err # (e.err # "nil") THEN "setafc-error-contract"
